@@ -367,6 +367,9 @@ func (ms *measureService) handleWriteCleanup(publisher queue.BatchPublisher, suc
 	cee, err := publisher.Close()
 	for _, s := range *succeedSent {
 		code := modelv1.Status_STATUS_SUCCEED
+		if err != nil {
+			code = modelv1.Status_STATUS_INTERNAL_ERROR
+		}
 		if cee != nil {
 			for _, node := range s.nodes {
 				if ce, ok := cee[node]; ok {
